@@ -111,8 +111,8 @@ class Folder:
         if isinstance(n, ast.Name):
             if n.id in env:
                 return env[n.id]
-            if n.id in mod.toplevel or n.id in mod.imports:
-                return self.module_value(mod.name, n.id)
+            if n.id in mod.toplevel or n.id in mod.imports or (mod.name, n.id) in self._cache:
+                return self.module_value(mod.name, n.id)      # (the cache also holds synthetic tables, see brine_model)
             if n.id in BUILTIN_VALUES:
                 return BUILTIN_VALUES[n.id]
             if n.id in BUILTIN_TYPES:
